@@ -319,7 +319,8 @@ class Ctx:
     # -------------------------------------------------------------- verdicts
     def violation(self, key, desc, case):
         """A real-code behaviour the specification rejects."""
-        if key in self.known:
+        if key in self.known or ("+" in key and all(k in self.known for k in key.split("+"))):
+            # a combination of recorded findings (both deviations needed to explain the behaviour) is recorded too
             if key not in self.known_hits:
                 self.known_hits[key] = desc
             return False
